@@ -250,6 +250,52 @@ def main(tier):
             if len(samples) < 6:
                 k = int(np.nonzero(isb)[0][h])
                 samples.append(dict(query=_show(Q[seq[k]], S, fnname.get(int(Q[seq[k]]['fn']), '?')), result=_cshow(can[k]), history=h, position=k, env=env, config=config))
+        # ---- (2b) long run: state that only goes wrong after MANY calls (a 15/16-bit counter that wraps, a memo that fills up, a slot per N-th
+        #           error): blocks of 70000 immediate repetitions of one baseline query - success and failure paths of the common entry
+        #           points - each followed by a sample of all baseline queries; everything compared with the fresh-process baseline
+        if flavour == 'plain' and (tier == 'thorough' or config == 'shipped'):
+            common_fns = ['CS_Total', 'CS_Photo', 'AtomicWeight', 'LineEnergy', 'CS_Total_CP', 'CompoundParser_summary', 'Crystal_dSpacing', 'Crystal_F_H_StructureFactor',
+                          'NISTByName_summary', 'Refractive_Index', 'Atomic_Factors', 'SymbolToAtomicNumber', 'RadioByName_summary', 'FF_Rayl', 'ComptonProfile']
+            idn = {v: k for k, v in fnname.items()}
+            blocks, reps = [], (70000 if tier == 'quick' else 140000)
+            for fn_ in common_fns:
+                fid = idn.get(fn_)
+                cand = [int(q) for q in bidx if int(Q[q]['fn']) == fid]
+                okq = [q for q in cand if baseline[q][0] & 1 == 0][:1]
+                erq = [q for q in cand if baseline[q][0] & 1][:1]
+                blocks += okq + erq
+            seq = []
+            for q in blocks:
+                seq.append(np.full(reps, q)); seq.append(rng.choice(bidx, 150))
+            if blocks:
+                seq = np.concatenate(seq)
+                resp, msgs, rep = P.run(Q[seq], S, {})
+                if resp is None:
+                    ck.violation('crash:long-run', 'long-run history process died', dict(info=rep, config=config, seed=ck.seed, blocks=[_show(Q[q], S, fnname.get(int(Q[q]['fn']), '?')) for q in blocks]))
+                else:
+                    _check_report(ck, rep, 'history', config)
+                    totals['evals'] += len(seq); totals['long_run_calls'] = totals.get('long_run_calls', 0) + len(seq); totals['long_run_blocks'] = totals.get('long_run_blocks', 0) + len(blocks)
+                    # compare without materialising 2e6 tuples: vectorised on the raw records, message text only where something differs
+                    want_s = np.array([baseline[int(q)][0] for q in seq]); want_c = np.array([baseline[int(q)][1] for q in seq]); want_a = np.array([baseline[int(q)][3] for q in seq])
+                    uniq = sorted(set(int(x) for x in seq))
+                    vmap = {q: np.frombuffer(baseline[q][2], dtype='u8') for q in uniq}
+                    got_v = resp['v'].view('u8').reshape(len(seq), -1)
+                    bad = np.nonzero((resp['status'] != want_s) | (resp['code'] != want_c) | (resp['aux'] != want_a))[0].tolist()
+                    for q in uniq:
+                        rows = np.nonzero(seq == q)[0]
+                        diff = rows[(got_v[rows] != vmap[q][None, :]).any(axis=1)]
+                        bad += diff.tolist()
+                        mrows = rows[[0, len(rows) // 2, -1]]            # messages: first, middle and last occurrence
+                        for k in mrows:
+                            m = int(resp['msg'][k]); txt = msgs[m] if 0 <= m < len(msgs) else None
+                            if txt != baseline[q][4]:
+                                bad.append(int(k))
+                    for k in sorted(set(bad))[:3]:
+                        q = int(seq[k]); fn = fnname.get(int(Q[q]['fn']), '?')
+                        first = int(np.nonzero(seq == q)[0][0])
+                        ck.violation('c16:result-changes-after-many-calls:%s' % fn, '%s returns a different result at call %d of a long run (its repetition %d) than as first call of a fresh process' % (fn, k, k - first),
+                                     dict(request=_show(Q[q], S, fn), fresh=_cshow(baseline[q]), in_long_run=_cshow(canon(resp[k:k + 1], msgs)[0]), position=int(k), config=config, seed=ck.seed))
+
         # ---- (3) explicit insertions into the built-in collection: the hash must see them, and NOTHING else may change -
         #          neither unrelated queries nor any of the existing built-in crystals (stored volume, d-spacing, structure factor)
         from .. import xl
@@ -310,7 +356,7 @@ def main(tier):
                     'is run as the only call of a fresh process, then re-observed inside seeded random histories (with/without XRayInit, C and comma-decimal '
                     'locale) and compared bit for bit (status, code, message, values); writable library segments hashed before/after; locale, cwd, '
                     'stdout/stderr bytes and kept error objects re-checked; distinct = baseline queries re-observed identically after >= 2 different predecessor functions',
-               samples=samples, fresh_process_baselines=totals['fresh'], library_loads_observed_by_the_load_monitor=totals['loads'], histories=totals['histories'], histories_on_the_project_build=totals.get('histories_on_the_project_build', 0), history_length=hlen,
+               samples=samples, fresh_process_baselines=totals['fresh'], library_loads_observed_by_the_load_monitor=totals['loads'], long_run_calls=totals.get('long_run_calls', 0), long_run_blocks_of_repetitions=totals.get('long_run_blocks', 0), histories=totals['histories'], histories_on_the_project_build=totals.get('histories_on_the_project_build', 0), history_length=hlen,
                queries_reobserved=len(totals['reobserved']), hashed_bytes_per_history=totals['hashed_bytes'], error_objects_kept_and_recompared=totals['errors_kept'])
     return ck.finish(cov, ['library linked shared with -z now so that lazy binding does not rewrite the GOT', 'puremon harness, numpy'])
 
